@@ -210,7 +210,7 @@ func checkBody(c *mon.C, code uint16, reason string) bool {
 func subCloseBody() mon.Sub {
 	return mon.Sub{
 		Name: "close-body", Required: true,
-		N:    func(t string) int { return 256 },
+		N: func(t string) int { return 256 },
 		Do: func(c *mon.C) {
 			// all 256 codes of this block x boundary reason lengths, and for 8 codes every reason length 0..130 x 2 kinds
 			lens := []int{0, 1, 2, 122, 123, 124, 125, 130, 300}
